@@ -17,7 +17,9 @@ B == 2 ^ W
 EBITS == W * EL
 Limb(e, i) == (e \div B ^ i) % B              \* i-th limb (0-based)
 RECURSIVE PowMod(_, _, _)
-PowMod(b, e, m) == IF e = 0 THEN 1 % m ELSE (b * PowMod(b, e - 1, m)) % m
+PowMod(b, e, m) == IF e = 0 THEN 1 % m                       \* reference: binary method, independent of the window ladder
+                   ELSE IF e % 2 = 0 THEN PowMod((b * b) % m, e \div 2, m)
+                   ELSE (b * PowMod(b, e - 1, m)) % m
 RECURSIVE SqN(_, _, _)
 SqN(z, n, m) == IF n = 0 THEN z ELSE SqN((z * z) % m, n - 1, m)
 
@@ -47,11 +49,14 @@ Ladder(bs, es, k, m) ==
 RECURSIVE Want(_, _, _, _, _)
 Want(bs, es, k, m, i) == IF i > Len(bs) THEN 1 % m ELSE (PowMod(bs[i], es[i] % 2 ^ k, m) * Want(bs, es, k, m, i + 1)) % m
 
-VARIABLES m, bs, es, k
-Init == /\ m \in {x \in 1..MMAX : x % 2 = 1}
-        /\ bs \in [1..NB -> 0..MMAX - 1] /\ es \in [1..NB -> 0..2 ^ EBITS - 1]
-        /\ k \in 0..EBITS
-Next == UNCHANGED <<m, bs, es, k>>
-Spec == Init /\ [][Next]_<<m, bs, es, k>>
-Exact == (\A i \in 1..NB : bs[i] < m) => Ladder(bs, es, k, m) = Want(bs, es, k, m, 1)
+VARIABLES m, bs, es, k, st
+(* two phases: TLC generates initial states on one thread; the large choice (bases x exponents) is a transition, *)
+(* so that the workers share it                                                                                *)
+Init == /\ m \in {x \in 1..MMAX : x % 2 = 1} /\ k \in 0..EBITS
+        /\ bs = <<>> /\ es = <<>> /\ st = 0
+Next == /\ st = 0 /\ st' = 1
+        /\ bs' \in [1..NB -> 0..MMAX - 1] /\ es' \in [1..NB -> 0..2 ^ EBITS - 1]
+        /\ UNCHANGED <<m, k>>
+Spec == Init /\ [][Next]_<<m, bs, es, k, st>>
+Exact == (st = 1 /\ \A i \in 1..NB : bs[i] < m) => Ladder(bs, es, k, m) = Want(bs, es, k, m, 1)
 =============================================================================
